@@ -12,16 +12,16 @@ fi
 cd "$WT" || exit 2
 git checkout -q -- . ; git checkout -q --detach "$(git -C /repo rev-parse HEAD)" 2>/dev/null
 make -j8 >/dev/null 2>&1
-gcc -I src -I . "$D/demo.c" -L src/.libs -lcif -Wl,-rpath,$WT/src/.libs $LIBS -o /tmp/seedchk/demo_base 2>/tmp/seedchk/demo_build.log || { echo "REJECTED demo does not build on baseline"; cat /tmp/seedchk/demo_build.log | head; exit 1; }
-timeout 300 ${SEED_RUNNER:-} /tmp/seedchk/demo_base >/tmp/seedchk/base.out 2>&1; rb=$?
+gcc -I src -I . "$D/demo.c" -L src/.libs -lcif -Wl,-rpath,$WT/src/.libs $LIBS -o /tmp/seedchk/demo_base_$$ 2>/tmp/seedchk/demo_build_$$.log || { echo "REJECTED demo does not build on baseline"; cat /tmp/seedchk/demo_build_$$.log | head; exit 1; }
+timeout 300 ${SEED_RUNNER:-} /tmp/seedchk/demo_base_$$ >/tmp/seedchk/base_$$.out 2>&1; rb=$?
 git apply "$D/patch.diff" || { echo "REJECTED patch does not apply"; exit 1; }
 errs=$(make -j8 2>&1 | grep -E " error: " | head -3)
 if [ -n "$errs" ]; then echo "REJECTED compile error: $errs"; git checkout -q -- .; exit 1; fi
 res=$(make -k check 2>&1 | grep -E " error: |^# (PASS|FAIL|ERROR)" | tr '\n' ' ')
-gcc -I src -I . "$D/demo.c" -L src/.libs -lcif -Wl,-rpath,$WT/src/.libs $LIBS -o /tmp/seedchk/demo_mut 2>>/tmp/seedchk/demo_build.log
-timeout 300 ${SEED_RUNNER:-} /tmp/seedchk/demo_mut >/tmp/seedchk/mut.out 2>&1; rm_=$?
+gcc -I src -I . "$D/demo.c" -L src/.libs -lcif -Wl,-rpath,$WT/src/.libs $LIBS -o /tmp/seedchk/demo_mut_$$ 2>>/tmp/seedchk/demo_build_$$.log
+timeout 300 ${SEED_RUNNER:-} /tmp/seedchk/demo_mut_$$ >/tmp/seedchk/mut_$$.out 2>&1; rm_=$?
 git checkout -q -- .
 echo "tests: $res"
-echo "demo baseline rc=$rb ($(tail -1 /tmp/seedchk/base.out)) ; mutated rc=$rm_ ($(tail -1 /tmp/seedchk/mut.out))"
+echo "demo baseline rc=$rb ($(tail -1 /tmp/seedchk/base_$$.out)) ; mutated rc=$rm_ ($(tail -1 /tmp/seedchk/mut_$$.out))"
 if echo "$res" | grep -q "# PASS:  *74" && echo "$res" | grep -q "# FAIL:  *0" && echo "$res" | grep -q "# ERROR:  *0" && [ $rb -eq 0 ] && [ $rm_ -ne 0 ]; then echo CONFIRMED; exit 0; fi
 echo REJECTED; exit 1
